@@ -309,12 +309,17 @@ func (r *Reader) eval(v ssa.Value, fr *rframe, depth int) Word {
 		}
 		return unkWord()
 	case *ssa.Call:
-		return r.evalCall(x, fr, depth)
+		return r.evalCall(x, fr, depth, 0)
+	case *ssa.Extract:
+		// one result of a helper that returns several (split8and24(w) (hi, lo))
+		if c, ok := x.Tuple.(*ssa.Call); ok {
+			return r.evalCall(c, fr, depth, x.Index)
+		}
 	}
 	return unkWord()
 }
 
-func (r *Reader) evalCall(c *ssa.Call, fr *rframe, depth int) Word {
+func (r *Reader) evalCall(c *ssa.Call, fr *rframe, depth int, resIdx int) Word {
 	com := c.Common()
 	// encoding/binary
 	if !com.IsInvoke() {
@@ -372,10 +377,10 @@ func (r *Reader) evalCall(c *ssa.Call, fr *rframe, depth int) Word {
 	var best *Word
 	for _, b := range g.Blocks {
 		ret, ok := b.Instrs[len(b.Instrs)-1].(*ssa.Return)
-		if !ok || len(ret.Results) < 1 {
+		if !ok || len(ret.Results) <= resIdx {
 			continue
 		}
-		w := r.eval(ret.Results[0], nf, depth+1)
+		w := r.eval(ret.Results[resIdx], nf, depth+1)
 		if w == zeroWord() {
 			continue // constant-zero early return (length guard)
 		}
